@@ -8,6 +8,8 @@ CONSTANTS
   ZeroFix = TRUE
   OffsetErrFix = FALSE
   LateNotice = FALSE
+  Twin = FALSE
+  PathLockFix = TRUE
 INVARIANT TypeOK
 INVARIANT DCompleteIsIdentical
 INVARIANT PrefixKept
